@@ -221,6 +221,32 @@ func corrProv(seed uint64, n int, tier string, out string, replay string) {
 		}
 		check(kind, a, env.archiveName, p, env.ringSigner, i+10)
 	}
+	// the keyring's trust as a history: ONE keyring path whose content is replaced between verifications
+	// of the same genuine archive; the verdict must follow what the file holds now
+	{
+		ap := filepath.Join(work, env.archiveName)
+		os.WriteFile(ap, env.archive, 0o644)
+		os.WriteFile(ap+".prov", env.prov, 0o644)
+		hist := filepath.Join(work, "keyring-history.gpg")
+		r := NewRng(seed, 99)
+		for k := 0; k < 12; k++ {
+			src, trusted := env.ringSigner, true
+			switch r.Intn(3) {
+			case 0:
+				src, trusted = env.ringOther, false
+			case 1:
+				src = env.ringBoth
+			}
+			b, _ := os.ReadFile(src)
+			os.WriteFile(hist, b, 0o644)
+			var herr error
+			safely(func() { _, herr = downloader.VerifyChart(ap, hist) })
+			rep.H(fmt.Sprintf("keyring-history:trusted=%v", trusted))
+			if (herr == nil) != trusted {
+				rep.Issue(Issue{Kind: "monitor", Fingerprint: "C17:stale-keyring", What: fmt.Sprintf("step %d: the keyring file now holds %s (signer trusted=%v) but VerifyChart says %v", k, filepath.Base(src), trusted, herr), Case: map[string]any{"step": k, "ring": filepath.Base(src)}, Seed: seed, Index: 100000 + k})
+			}
+		}
+	}
 	rep.Write(out, m)
 }
 
